@@ -129,6 +129,23 @@ STATEFUL = [
     (None, "SELECT * FROM (SELECT 1) CROSS JOIN (SELECT 2)"),
     (None, "SELECT a FROM t WHERE b = :p1 AND c = ? AND d = @v"),
     (None, "SELECT x[1:2], INTERVAL '1' DAY + d, DATE '2020-01-01', {'a': 1} FROM t"),
+    # constructs parsed speculatively (Parser._try_parse switches the error level and must switch it back): see SPECULATIVE
+    ("mysql", "SELECT a FROM t LIMIT 1, 2"),
+    (None, "SELECT a FROM t ORDER BY a FETCH FIRST 3 ROWS ONLY"),
+    (None, "SELECT a FROM t LIMIT 5 OFFSET 2"),
+    ("clickhouse", "WITH x AS (SELECT 1) SELECT * FROM x"),
+    (None, "GRANT SELECT ON TABLE t TO u"),
+    ("tsql", "DECLARE @a INT = 1"),
+    ("postgres", "SELECT a::int4, b::double precision FROM t"),
+    (None, "SELECT * FROM a JOIN (b JOIN c ON b.x = c.x) ON a.x = b.x"),
+    (None, "SELECT * FROM t PIVOT(SUM(v) FOR k IN ('a', 'b'))"),
+    (None, "CREATE TABLE a CLONE b"),
+    ("oracle", "SELECT (d2 - d1) DAY TO SECOND FROM t"),
+    # function signatures (printed with identifier quoting switched off for the duration of the signature)
+    ("bigquery", "CREATE TEMP FUNCTION f(a INT64, b STRING) AS (a)"),
+    ("postgres", "CREATE FUNCTION f(a INT, b TEXT DEFAULT 'x') RETURNS INT LANGUAGE SQL AS $$SELECT 1$$"),
+    ("snowflake", "CREATE FUNCTION f(a INT, b VARCHAR) RETURNS INT AS 'a + 1'"),
+    ("duckdb", "CREATE MACRO m(a, b) AS a + b"),
 ]
 
 # Type-coercion sensitive projections (string vs temporal, integer vs decimal): what annotate_types answers for them
@@ -176,6 +193,12 @@ def vocab_statement(rng):
         w = w.lower()
     return rng.choice(VOCAB_TEMPLATES).format(w=w)
 
+
+SPECULATIVE = [x for x in STATEFUL if x[1] in (
+    "SELECT a FROM t LIMIT 1, 2", "SELECT a FROM t ORDER BY a FETCH FIRST 3 ROWS ONLY", "SELECT a FROM t LIMIT 5 OFFSET 2", "WITH x AS (SELECT 1) SELECT * FROM x",
+    "GRANT SELECT ON TABLE t TO u", "DECLARE @a INT = 1", "SELECT a::int4, b::double precision FROM t", "SELECT * FROM a JOIN (b JOIN c ON b.x = c.x) ON a.x = b.x",
+    "SELECT * FROM t PIVOT(SUM(v) FOR k IN ('a', 'b'))", "CREATE TABLE a CLONE b", "SELECT (d2 - d1) DAY TO SECOND FROM t")]
+SIGNATURES = [x for x in STATEFUL if x[1].startswith(("CREATE TEMP FUNCTION", "CREATE FUNCTION", "CREATE MACRO"))]
 
 FAILING = [
     (None, "SELECT * FROM"),
